@@ -52,6 +52,15 @@ var ExtEffects = map[string]string{
 	"os.Truncate":                 EffFSOpenRW,
 	"os.Chmod":                    EffFSOpenRW,
 	"os.Chown":                    EffFSOpenRW,
+	"os.Lchown":                   EffFSOpenRW,
+	"os.Chtimes":                  EffFSOpenRW,
+	"os.MkdirTemp":                EffFSMkdir,
+	"os.Readlink":                 EffFSStat,
+	"os.Getwd":                    EffPure,
+	"os.Getpid":                   EffPure,
+	"os.Hostname":                 EffPure,
+	"io.ReadAll":                  EffFSRead,
+	"io.ReadFull":                 EffFSRead,
 	"os.Link":                     EffFSCreate,
 	"os.Symlink":                  EffFSCreate,
 	"os.ReadFile":                 EffFSRead,
